@@ -10,7 +10,7 @@ MANIFEST = {
     'technique': 'exhaustive enumeration of all rectangle pairs/triples of a small grid, Ranges operators and formulas vs cell-set reference',
     'text': 'All ordered pairs of rectangles of a 4x4 grid (10^4; thorough 5x5, 50625) and all triples of a 3x3 grid (46656) are combined with '
             '& + | - simplify() and .value on the real Ranges class and through formulas (SUM/COUNT/ROWS over space, comma and colon; two reference expressions resolving to the same area inside one formula; the range operator with a multi-area operand on either side), and compared '
-            'with set/multiset arithmetic on cells; whole-row/column and cross-sheet operands are enumerated against every rectangle. Values seen through whole-row operands are compared on all 16384 position-coded cells.',
+            'with set/multiset arithmetic on cells; whole-row/column and cross-sheet operands are enumerated against every rectangle. Values seen through whole-row operands are compared on all 16384 position-coded cells.' ' Later additions: compound formulas, the range operator over multi-area operands, R1C1 operands, unions across two sheets with equal coordinates (values), unions of three and four areas.',
     'note': 'Trusted: ref/rects.py (set arithmetic). Order of areas in a multi-area value is not judged (multiset comparison).',
 }
 RULE = 'every ordered pair / triple of rectangles; non-trivial = executed; distinct = case key'
